@@ -663,6 +663,38 @@ def analyse_nnz_fix(tree):
   return {"flag": True, "prezero": prezero, "clamp": clamp}
 
 
+def analyse_pair_emitters(tree):
+  """Broadphase kernels of collision_driver.py that emit candidate pairs through _add_geom_pair.
+  The counter ncollision_out is the ONLY evidence of a broadphase overflow (_next_time tests
+  ncollision > naconmax), so an emitter must reach _add_geom_pair for every candidate: inside an
+  emitter the counter and the capacity may appear only as arguments handed to a call; any test,
+  loop exit or arithmetic on them raises (fail closed)."""
+  emitters = []
+  for name, fn in _kernel_defs(tree):
+    if name == "_add_geom_pair":
+      continue
+    calls = _find_calls(fn, "_add_geom_pair")
+    if not calls:
+      continue
+    allowed = set()
+    for c in ast.walk(fn):
+      if isinstance(c, ast.Call):
+        for a in c.args:
+          if isinstance(a, ast.Name):
+            allowed.add(id(a))
+    for n in ast.walk(fn):
+      if isinstance(n, ast.Name) and n.id in ("ncollision_out", "naconmax_in") and id(n) not in allowed:
+        raise ExtractError(f"{name}: `{n.id}` used outside a call argument (line {n.lineno}): capacity-dependent control flow in a pair emitter")
+    for c in calls:
+      args = [src(a) for a in c.args]
+      if "ncollision_out" not in args or "naconmax_in" not in args:
+        raise ExtractError(f"{name}: _add_geom_pair called without the kernel's counter / capacity (line {c.lineno})")
+    emitters.append({"name": name, "line": fn.lineno, "calls": len(calls)})
+  if not emitters:
+    raise ExtractError("collision_driver.py: no kernel calls _add_geom_pair")
+  return emitters
+
+
 def analyse_collision_host(tree):
   """collision(m, d): does the host function return before any allocation when naconmax == 0 ?
   (then needed contacts are dropped without any counter being bumped)"""
@@ -727,7 +759,7 @@ def extract():
   b, p = analyse_serial("_compact_dofs", cdf, "nvmax", "NVMAX")
   builders.append(b)
   probes = analyse_next_time(_parse("forward.py")) + [p]
-  return builders, probes, {"collision_zero_cap_skip": zskip, "nnz_fix": analyse_nnz_fix(ct)}
+  return builders, probes, {"collision_zero_cap_skip": zskip, "nnz_fix": analyse_nnz_fix(ct), "pair_emitters": analyse_pair_emitters(cd)}
 
 
 def _coq_bool(b):
@@ -775,6 +807,9 @@ def to_coq(builders, probes, host):
   lines.append("")
   lines.append("(* collision_driver.collision returns before any allocation when d.naconmax == 0 *)")
   lines.append(f"Definition collision_zero_cap_skip : bool := {_coq_bool(host['collision_zero_cap_skip'])}.")
+  lines.append("(* broadphase kernels that reach _add_geom_pair for every candidate pair (no use of the counter or the")
+  lines.append("   capacity other than handing them to the call): " + ", ".join(f"{e['name']} (line {e['line']})" for e in host["pair_emitters"]) + " *)")
+  lines.append("Definition pair_emitters : list string := [" + "; ".join('"' + e["name"] + '"' for e in host["pair_emitters"]) + "].")
   fx = host["nnz_fix"]
   lines.append("")
   lines.append("(* repairs of the njmax_nnz class found in make_constraint: direct flag / metadata zeroed first / clamp *)")
